@@ -27,8 +27,10 @@ func runConcurrent(r *common.Run, rooms, iters int) {
 	if err != nil {
 		return
 	}
-	tap := c06.Tap(rs)
-	feed := c06.Feeder(rs)
+	done := make(chan struct{})
+	defer close(done)
+	tap := c06.Tap(rs, done)
+	feed := c06.Feeder(rs, done)
 	var upres int64
 	cl := &muc.Client{HandleUserPresence: func(stanza.Presence, muc.Item) { atomic.AddInt64(&upres, 1) }}
 	go rs.S.Serve(mux.New("jabber:client", muc.HandleClient(cl)))
